@@ -296,6 +296,8 @@ impl<T> MutexIsh<T> {
     }
 
     pub fn locked<U>(&self, func: impl FnOnce(&mut T) -> U) -> U {
+        #[cfg(unimock_verif)]
+        crate::verif::sync::announce(crate::verif::sync::Op::Lock, self as *const Self as *const () as usize);
         let mut lock = self.inner.lock().unwrap();
         func(&mut *lock)
     }
@@ -310,6 +312,8 @@ impl<T> MutexIsh<T> {
     }
 
     pub fn locked<U>(&self, func: impl FnOnce(&mut T) -> U) -> U {
+        #[cfg(unimock_verif)]
+        crate::verif::sync::announce(crate::verif::sync::Op::Lock, self as *const Self as *const () as usize);
         let mut lock = self.inner.lock();
         func(&mut *lock)
     }
